@@ -10,11 +10,12 @@ use zydeco_dynamics::ProgKont;
 use zydeco_tui::{Repl, ReplError};
 
 fn main() {
-    let result = Application::default().run(Cli::parse().command);
+    let application = Application::default();
+    let result = application.run(Cli::parse().command);
     match result {
         | Ok(code) => std::process::exit(code),
         | Err(error) => {
-            error.render();
+            error.render(&application.compiler);
             std::process::exit(1);
         }
     }
@@ -79,7 +80,7 @@ impl Application {
     ) -> Result<std::sync::Arc<zydeco_session::ProgramAnalysis>, ApplicationError> {
         let analysis = self.compiler.analyze(path)?;
         DiagnosticRenderer::warnings(&analysis);
-        DiagnosticRenderer::observations(&analysis);
+        DiagnosticRenderer::observations(&self.compiler, &analysis);
         Ok(analysis)
     }
 
@@ -164,9 +165,9 @@ enum ApplicationError {
 }
 
 impl ApplicationError {
-    fn render(&self) {
+    fn render(&self, compiler: &CommandCompiler) {
         match self {
-            | Self::Compile(error) => DiagnosticRenderer::error(error),
+            | Self::Compile(error) => DiagnosticRenderer::error(compiler, error),
             | _ => eprintln!("{self}"),
         }
     }
